@@ -1,11 +1,15 @@
 /-
   Driver/Sync.lean — line-protocol ops for the notes synchronisation model (C10).
 
-  sync_run {n, steps: [[ [opname, i] | ["rewrite", i, c] , … ], …]}
-    runs the model from `init n`; each element of `steps` is one *macro step* (a list of
+  sync_run {n, probe?, steps: [[ [opname, i] | ["rewrite", i, c] | ["maintRemote"], … ], …]}
+    runs the model from `init n` with the existence probe `probe` ("show-ref-verify" (default) |
+    "rev-parse-verify" | "loose-file" | "unknown" — what extract/sync_ref_probes.py read off
+    refs.rs:ref_exists); each element of `steps` is one *macro step* (a list of
     model ops executed in order: a raced push is one macro step of four ops); returns the
     observable state of every repository after every macro step:
-      {steps: [{remote: ref|null, rhas: [oid…], clones: [{loc: ref|null, trk: ref|null, has: [oid…]}…]}…],
+      {steps: [{remote: ref|null, rst, rhas: [oid…],
+                clones: [{loc: ref|null, trk: ref|null, locSt, trkSt, has: [oid…]}…]}…],
+       (rst / locSt / trkSt: "absent" | "loose" | "packed" — where the ref is stored)
        wr: [[notes-commit id, commit oid, note id]…]   -- every `notes add`, oldest first
        log: [[commit oid, author clone, note id]…]}    -- oldest first
     ref = {notes: [[oid, note]…] sorted by oid, n: number of reachable notes commits}
@@ -30,6 +34,11 @@ def opOf (j : Json) : Except String (State → Op) := do
     | "pFetch" => pure (fun _ => .pFetch i)
     | "pMerge" => pure (fun _ => .pMerge i)
     | "pSend" => pure (fun _ => .pSend i)
+    | "maintenance" => pure (fun _ => .maintenance i)
+    | s => throw s!"bad op {s}"
+  | [nm] =>
+    match (← nm.getStr?) with
+    | "maintRemote" => pure (fun _ => .maintRemote)
     | s => throw s!"bad op {s}"
   | [nm, i, k] =>
     let i ← i.getNat?
@@ -47,25 +56,50 @@ def jRef : Option NRef → Json
     let es := (r.map.toArray.qsort (fun a b => a.1 < b.1)).toList
     jObj [("notes", jArr (es.map fun p => jArr [jNat p.1, jNat p.2])), ("n", jNat r.reach.length)]
 
+def jSt (v : Option NRef) (st : Store) : Json :=
+  match refSt v st with
+  | .absent => Json.str "absent"
+  | .loose => Json.str "loose"
+  | .packed => Json.str "packed"
+
 def jState (s : State) : Json :=
-  jObj [("remote", jRef s.remote), ("rhas", jArr ((sortNat s.rhas).map jNat)),
+  jObj [("remote", jRef s.remote), ("rst", jSt s.remote s.rst), ("rhas", jArr ((sortNat s.rhas).map jNat)),
         ("clones", jArr (s.clones.map fun c =>
-          jObj [("loc", jRef c.loc), ("trk", jRef c.trk), ("has", jArr ((sortNat c.has).map jNat))]))]
+          jObj [("loc", jRef c.loc), ("trk", jRef c.trk), ("locSt", jSt c.loc c.locSt), ("trkSt", jSt c.trk c.trkSt),
+                ("has", jArr ((sortNat c.has).map jNat))]))]
 
-/-- which branch of the model an op takes in state `s` (coverage tags for the evidence). -/
-def tagIntegrate (s : State) (loc : Option NRef) (t : NRef) : String :=
-  match loc with
-  | none => "copy"
-  | some l =>
-    if subset t.reach l.reach then "uptodate"
-    else if subset l.reach t.reach then "ff"
-    else
-      let b := baseMap s.objs l t
-      let conflict := (mergeKeys b l.map t.map).any fun k =>
-        get b k != get t.map k && get l.map k != get t.map k && get l.map k != get b k
-      if conflict then "merge3-conflict" else "merge3"
+def probeOf : String → Except String Probe
+  | "show-ref-verify" => pure (probeSem .showRefVerify)
+  | "rev-parse-verify" => pure (probeSem .revParseVerify)
+  | "loose-file" => pure (probeSem .looseFile)
+  | "unknown" => pure (probeSem .unknown)
+  | s => throw s!"bad probe {s}"
 
-def tagPrim (s : State) : Op → List String
+/-- which branch of the model an op takes in state `s` (coverage tags for the evidence):
+    `cl` is the clone record the decision is taken on (tracking ref already updated). -/
+def tagIntegrate (P : Probe) (s : State) (cl : Clone) : List String :=
+  let stTag := match refSt cl.loc cl.locSt, refSt cl.trk cl.trkSt with
+    | .packed, .loose => ["probe:loc-packed", "probe:loc-packed-trk-loose"]
+    | .packed, _ => ["probe:loc-packed"]
+    | _, .packed => ["probe:trk-packed"]
+    | _, _ => []
+  let br :=
+    if !P (refSt cl.trk cl.trkSt) then (if cl.trk.isSome then "skip-EXISTING-TRK" else "notrk")
+    else if !P (refSt cl.loc cl.locSt) then (if cl.loc.isSome then "copy-OVER-EXISTING" else "copy")
+    else match cl.loc, cl.trk with
+      | none, _ => "merge-unborn"
+      | _, none => "merge-notrk"
+      | some l, some t =>
+        if subset t.reach l.reach then "uptodate"
+        else if subset l.reach t.reach then "ff"
+        else
+          let b := baseMap s.objs l t
+          let conflict := (mergeKeys b l.map t.map).any fun k =>
+            get b k != get t.map k && get l.map k != get t.map k && get l.map k != get b k
+          if conflict then "merge3-conflict" else "merge3"
+  br :: stTag
+
+def tagPrim (P : Probe) (s : State) : Op → List String
   | .commit i => match s.clones[i]? with
     | some cl => [if cl.loc.isSome then "commit" else "commit-first"]
     | none => ["noclone"]
@@ -73,7 +107,10 @@ def tagPrim (s : State) : Op → List String
     | some cl => [if cl.has.contains c then "rewrite" else "rewrite-unheld"]
     | none => ["noclone"]
   | .fetch i | .pull i => match s.clones[i]?, s.remote with
-    | some cl, some r => ["fetch-" ++ tagIntegrate s cl.loc r]
+    | some cl, some r =>
+      match tagIntegrate P s { cl with trk := some r, trkSt := written cl.trk cl.trkSt r } with
+      | b :: rest => ("fetch-" ++ b) :: rest
+      | [] => []
     | some _, none => ["fetch-noremote"]
     | none, _ => ["noclone"]
   | .pFetch i => match s.clones[i]?, s.remote with
@@ -82,9 +119,9 @@ def tagPrim (s : State) : Op → List String
     | none, _ => ["noclone"]
   | .pMerge i => match s.clones[i]? with
     | some cl => if cl.fetchOk then
-        match cl.trk with
-        | some t => ["pmerge-" ++ tagIntegrate s cl.loc t]
-        | none => ["pmerge-notrk"]
+        match tagIntegrate P s cl with
+        | b :: rest => ("pmerge-" ++ b) :: rest
+        | [] => []
       else ["pmerge-skip"]
     | none => ["noclone"]
   | .pSend i => match s.clones[i]? with
@@ -96,22 +133,26 @@ def tagPrim (s : State) : Op → List String
         else ["send-rejected"]
     | none => ["noclone"]
   | .push _ => []
+  | .maintenance i => match s.clones[i]? with
+    | some cl => [if refSt cl.loc cl.locSt == .loose || refSt cl.trk cl.trkSt == .loose then "maint-packs" else "maint-noop"]
+    | none => ["noclone"]
+  | .maintRemote => [if refSt s.remote s.rst == .loose then "maintremote-packs" else "maintremote-noop"]
 
-def runTag : List (State → Op) → State → List String → State × List String
+def runTag (P : Probe) : List (State → Op) → State → List String → State × List String
   | [], s, acc => (s, acc)
   | f :: ops, s, acc =>
     match f s with
     | .push i =>
-      let s1 := step s (.pFetch i); let s2 := step s1 (.pMerge i)
-      runTag ops (step s (.push i)) (acc ++ tagPrim s (.pFetch i) ++ tagPrim s1 (.pMerge i) ++ tagPrim s2 (.pSend i))
-    | op => runTag ops (step s op) (acc ++ tagPrim s op)
+      let s1 := step P s (.pFetch i); let s2 := step P s1 (.pMerge i)
+      runTag P ops (step P s (.push i)) (acc ++ tagPrim P s (.pFetch i) ++ tagPrim P s1 (.pMerge i) ++ tagPrim P s2 (.pSend i))
+    | op => runTag P ops (step P s op) (acc ++ tagPrim P s op)
 
-def runSteps : List (List (State → Op)) → State → List Json → State × List Json
+def runSteps (P : Probe) : List (List (State → Op)) → State → List Json → State × List Json
   | [], s, acc => (s, acc.reverse)
   | ops :: rest, s, acc =>
-    let (s', tags) := runTag ops s []
+    let (s', tags) := runTag P ops s []
     let j := (jState s').setObjVal! "tags" (jArr (tags.map Json.str))
-    runSteps rest s' (j :: acc)
+    runSteps P rest s' (j :: acc)
 
 def handle (op : String) (j : Json) : Option (Except String Json) :=
   match op with
@@ -119,7 +160,10 @@ def handle (op : String) (j : Json) : Option (Except String Json) :=
       let n ← getNatField j "n"
       let steps ← (← getArrField j "steps").toList.mapM (fun st => do
         (← st.getArr?).toList.mapM opOf)
-      let (s, out) := runSteps steps (init n) []
+      let P ← match j.getObjVal? "probe" with
+        | .ok p => do probeOf (← p.getStr?)
+        | .error _ => pure gitSees
+      let (s, out) := runSteps P steps (init n) []
       pure (jObj [("steps", jArr out),
                   ("wr", jArr (s.wr.reverse.map fun p => jArr [jNat p.1, jNat p.2.1, jNat p.2.2])),
                   ("log", jArr (s.log.reverse.map fun p => jArr [jNat p.1, jNat p.2.1, jNat p.2.2]))])
